@@ -99,6 +99,24 @@ def errpure_set_fixed(ctx, prog):
             r, names = fpath(e)
             # (try_from(size) as Ok).0
             ok = r[0] == "call" and "try_from" in r[1] and is_param(r[2][0], "size") and names == ("<Ok>", "0")
+    if not ok:
+        # combinator form: `u64::try_from(size).map_err(..).and_then(|size| self.set_fixed_input_size(size))`
+        gsy = Sym(g)
+        for i, t in g.calls():
+            if callee_of(t).endswith("::and_then") and len(t["args"]) == 2:
+                recv = strip(gsy.operand(t["args"][0]))
+                while recv[0] == "call" and recv[1].split("::")[-1] in ("map_err",) and recv[2]:
+                    recv = strip(recv[2][0])
+                cl = strip(gsy.operand(t["args"][1]))
+                if recv[0] == "call" and "try_from" in recv[1] and is_param(strip(recv[2][0]), "size") and cl[0] == "agg" and cl[1].startswith("Closure:"):
+                    c = prog.get(cl[1][len("Closure:"):])
+                    if c is not None:
+                        ctx.visit(c)
+                        csy = Sym(c)
+                        for ci, ct in c.calls():
+                            if callee_of(ct).endswith("Generator::set_fixed_input_size") and ct["dest"]["l"] == 0:
+                                a1 = strip(csy.operand(ct["args"][1]))
+                                ok = a1[0] == "param" and a1[1] == 2 and t["dest"]["l"] == 0
     ctx.ob("SA-DELEGATE", "set_fixed_input_size_in_usize forwards u64::try_from(size) to set_fixed_input_size", ok,
            "argument is the Ok payload of try_from(size)" if ok else "the forwarded size is not the converted parameter", g.loc())
 
